@@ -4,6 +4,7 @@ import (
 	"go/ast"
 	"go/token"
 	"go/types"
+	"strings"
 
 	"verif/mlbcheck/chk"
 )
@@ -36,7 +37,12 @@ func init() {
 		NotDecided: "Nothing value-level is checked: the minimal-disruption conclusion is a mathematical consequence of the decided premise.",
 		Run:        runC12,
 		Mutants: []Mutant{
-			c04Mutants[0], c04Mutants[1], c04Mutants[4], c04Mutants[5],
+			{Name: "endpoint-scan-stops-at-first-unnamed", File: "speaker/layer2_controller.go",
+				Old: "\t\t\tif ep.NodeName == nil {\n\t\t\t\tcontinue", New: "\t\t\tif ep.NodeName == nil {\n\t\t\t\tbreak", Expect: "ELIGIBLE"},
+			{Name: "unknown-network-status-counts-as-unavailable", File: "internal/k8s/nodes/nodes.go",
+				Old: "== corev1.ConditionTrue", New: "!= corev1.ConditionFalse", Expect: "NODE-NETWORK"},
+			c04Mutants[3], c04Mutants[4], c04Mutants[7], c04Mutants[8],
+			c04Mutants[len(c04Mutants)-1],
 			{Name: "key-includes-service-name", File: "speaker/layer2_controller.go",
 				Old: "ipString := toAnnounce[0].String()", New: "ipString := toAnnounce[0].String() + name", Expect: "ELECTION"},
 		},
@@ -44,6 +50,12 @@ func init() {
 }
 
 var c04Mutants = []Mutant{
+	{Name: "active-endpoint-needs-node-name", File: "speaker/layer2_controller.go",
+		Old: "\t\t\tif !epslices.EndpointCanServe(ep.Conditions) {\n\t\t\t\tcontinue\n\t\t\t}\n\t\t\treturn true", New: "\t\t\tif !epslices.EndpointCanServe(ep.Conditions) || ep.NodeName == nil {\n\t\t\t\tcontinue\n\t\t\t}\n\t\t\treturn true", Expect: "WINNER"},
+	{Name: "endpoint-scan-stops-at-first-unnamed", File: "speaker/layer2_controller.go",
+		Old: "\t\t\tif ep.NodeName == nil {\n\t\t\t\tcontinue", New: "\t\t\tif ep.NodeName == nil {\n\t\t\t\tbreak", Expect: "ELIGIBLE"},
+	{Name: "unknown-network-status-counts-as-unavailable", File: "internal/k8s/nodes/nodes.go",
+		Old: "== corev1.ConditionTrue", New: "!= corev1.ConditionFalse", Expect: "NODE-NETWORK"},
 	{Name: "sort-removed", File: "speaker/layer2_controller.go",
 		Old: "\tsort.Slice(availableNodes, func(i, j int) bool {\n\t\thi := sha256.Sum256([]byte(availableNodes[i] + \"#\" + ipString))\n\t\thj := sha256.Sum256([]byte(availableNodes[j] + \"#\" + ipString))\n\n\t\treturn bytes.Compare(hi[:], hj[:]) < 0\n\t})\n",
 		New: "\t_ = sha256.Sum256([]byte(ipString))\n\t_ = bytes.Compare\n\tsort.Strings(nil)\n", Expect: "ELECTION"},
@@ -66,10 +78,17 @@ var c04Mutants = []Mutant{
 		Old: "if conditions.Ready == nil || *conditions.Ready {", New: "if conditions.Ready == nil || *conditions.Ready || conditions.Serving == nil {", Expect: "CANSERVE"},
 	{Name: "no-endpoint-still-elects", File: "speaker/layer2_controller.go",
 		Old: "\tif !activeEndpointExists(eps) { // no active endpoints, just return", New: "\tif !activeEndpointExists(eps) && len(eps) > 0 { // no active endpoints, just return", Expect: "WINNER"},
+	{Name: "first-nonempty-slice-decides", File: "speaker/layer2_controller.go",
+		Old: "\t\t\treturn true\n\t\t}\n\t}\n\treturn false\n}\n\nfunc poolMatchesNodeL2",
+		New: "\t\t\treturn true\n\t\t}\n\t\tif len(slice.Endpoints) > 0 {\n\t\t\treturn false\n\t\t}\n\t}\n\treturn false\n}\n\nfunc poolMatchesNodeL2", Expect: "no-only-after-every-slice"},
+	{Name: "speaker-scan-stops-at-unavailable-node", File: "speaker/layer2_controller.go",
+		Old: "\"reason\", \"speaker's node has NodeNetworkUnavailable condition\")\n\t\t\tcontinue",
+		New: "\"reason\", \"speaker's node has NodeNetworkUnavailable condition\")\n\t\t\tbreak", Expect: "every-speaker-examined"},
 }
 
 func runC04(p *chk.Prog, r *chk.Report) {
 	nodeExclusionRule(p, r)
+	nodeNetworkRule(p, r)
 	c04Election(p, r)
 	c04Eligible(p, r)
 	c04Winner(p, r)
@@ -80,6 +99,7 @@ func runC04(p *chk.Prog, r *chk.Report) {
 func runC12(p *chk.Prog, r *chk.Report) {
 	c04Eligible(p, r)
 	nodeExclusionRule(p, r)
+	nodeNetworkRule(p, r)
 	c04Election(p, r)
 	electionScope(p, r)
 }
@@ -177,6 +197,21 @@ func c04Election(p *chk.Prog, r *chk.Report) {
 			}
 		}
 	}
+	if !keyOK && len(rets) == 1 && len(retResults(rets[0])) == 1 {
+		// the digests compared as strings (byte-wise order): string(hi[:]) < string(hj[:])
+		if b := lf.MatchNew("A < B", retResults(rets[0])[0]); b != nil {
+			sa, sb := lf.MatchNew("string(H[:])", lf.Expand(b["A"])), lf.MatchNew("string(H[:])", lf.Expand(b["B"]))
+			if sa != nil && sb != nil {
+				da, db := lf.Expand(sa["H"]), lf.Expand(sb["H"])
+				ma := lf.MatchNew(`sha256.Sum256([]byte(L[I] + "#" + S))`, da)
+				mb := lf.MatchNew(`sha256.Sum256([]byte(L[I] + "#" + S))`, db)
+				if ma != nil && mb != nil && lf.ObjOf(ma["I"]) == sc.I && lf.ObjOf(mb["I"]) == sc.J && lf.SameModulo(da, db, sc.I, sc.J) && lf.ObjOf(ma["L"]) == list {
+					keyOK = true
+					addrPart = ma["S"]
+				}
+			}
+		}
+	}
 	var keyFnObj types.Object
 	if !keyOK && len(rets) == 1 && len(retResults(rets[0])) == 1 {
 		// the key computed by a local key function: bytes.Compare(K(list[i]), K(list[j])) < 0 with
@@ -229,6 +264,55 @@ func c04Election(p *chk.Prog, r *chk.Report) {
 							}
 						}
 					}
+				}
+			}
+		}
+	}
+	if !keyOK && len(rets) == 1 && len(retResults(rets[0])) == 1 {
+		// the key computed by a function of the package: key(list[i], S) < key(list[j], S) on strings (byte-wise order), or
+		// bytes.Compare of the two, with key(node, addr) = the sha256 digest of node + "#" + addr as string / byte slice
+		for _, pat := range []string{"K(L[I], S) < K2(L2[J], S2)", "bytes.Compare(K(L[I], S), K2(L2[J], S2)) < 0", "strings.Compare(K(L[I], S), K2(L2[J], S2)) < 0"} {
+			b := lf.MatchNew(pat, retResults(rets[0])[0])
+			if b == nil {
+				continue
+			}
+			ko1, _ := lf.ObjOf(b["K"]).(*types.Func)
+			ko2, _ := lf.ObjOf(b["K2"]).(*types.Func)
+			if ko1 == nil || ko1 != ko2 || lf.ObjOf(b["I"]) != sc.I || lf.ObjOf(b["J"]) != sc.J || lf.ObjOf(b["L"]) != list || lf.ObjOf(b["L2"]) != list || !lf.SameExpr(b["S"], b["S2"]) {
+				continue
+			}
+			kf := p.FnOf(ko1)
+			if kf == nil || kf.Body == nil || kf.Param(0) == nil || kf.Param(1) == nil || kf.Param(2) != nil {
+				continue
+			}
+			krets := kf.Graph().Returns()
+			if len(krets) != 1 || len(retResults(krets[0])) != 1 {
+				continue
+			}
+			res := retResults(krets[0])[0]
+			var h ast.Expr
+			if m := kf.MatchNew("string(H[:])", res); m != nil {
+				h = m["H"]
+			} else if m := kf.MatchNew("H[:]", res); m != nil && !strings.HasPrefix(pat, "K(") {
+				h = m["H"]
+			}
+			if h == nil {
+				continue
+			}
+			if m := kf.MatchWith(`sha256.Sum256([]byte(P + "#" + S))`, kf.Expand(h), chk.H("P", isParamIdx(kf, 0)), chk.H("S", isParamIdx(kf, 1))); m != nil {
+				// the key function reads nothing but its two parameters
+				pure := true
+				ast.Inspect(kf.Body, func(n ast.Node) bool {
+					if id, ok := n.(*ast.Ident); ok {
+						if v, isVar := kf.ObjOf(id).(*types.Var); isVar && !v.IsField() && v.Pkg() != nil && v.Parent() == v.Pkg().Scope() {
+							pure = false // a package-level variable
+						}
+					}
+					return true
+				})
+				if pure {
+					keyOK = true
+					addrPart = b["S"]
 				}
 			}
 		}
@@ -392,6 +476,17 @@ func c04Eligible(p *chk.Prog, r *chk.Report) {
 		x.Check("speakersForPool:candidate-site", f.Pos(), len(sets) == 1 || len(sets) == 2, "", "expected one `res[s] = true` (or one per candidate source)")
 		direct := map[string]int{}
 		for _, s := range sets {
+			// every usable speaker is examined: the loop that admits candidates ends only when its source is exhausted
+			// (the source is a map: a scan cut short at the first unfit node keeps a random subset)
+			if l, isRs := f.LoopOf(s.Node).(*ast.RangeStmt); isRs {
+				whole := !loopHasBreak(g, l)
+				for _, rt := range g.Returns() {
+					if chk.InBody(l, rt.Node) {
+						whole = false
+					}
+				}
+				x.Check("speakersForPool:every-speaker-examined", l.Pos(), whole, "", "the scan of the usable speakers can stop before the last one (a break or return in the loop): the candidates are then a random subset that differs from speaker to speaker")
+			}
 			key := s.Node.(*ast.AssignStmt).Lhs[0].(*ast.IndexExpr).Index
 			same := func(e ast.Expr) bool { return f.SameExpr(e, key) }
 			x.Check("speakersForPool:network-available", s.Pos(), g.Dominated(s, g.GPat(false, "k8snodes.IsNetworkUnavailable(N[S])", chk.H("N", nodes), chk.H("S", same))), "", "a network-unavailable node can become a candidate")
@@ -487,19 +582,32 @@ func c04Eligible(p *chk.Prog, r *chk.Report) {
 	if ne != nil {
 		g := ne.Graph()
 		sets := g.Find(isSetInsert(ne))
+		// the set of hosting nodes kept as a library set: H.Insert(name)
+		keyOf := map[ast.Node]ast.Expr{}
+		setOf := map[ast.Node]ast.Expr{}
+		for _, s := range sets {
+			keyOf[s.Node] = s.Node.(*ast.AssignStmt).Lhs[0].(*ast.IndexExpr).Index
+			setOf[s.Node] = s.Node.(*ast.AssignStmt).Lhs[0].(*ast.IndexExpr).X
+		}
+		for _, s := range g.FindPat("H.Insert(K)") {
+			if _, isSet := ne.Info().TypeOf(s.Node.(*ast.CallExpr).Fun.(*ast.SelectorExpr).X).Underlying().(*types.Map); isSet {
+				keyOf[s.Node] = s.Node.(*ast.CallExpr).Args[0]
+				setOf[s.Node] = s.Node.(*ast.CallExpr).Fun.(*ast.SelectorExpr).X
+				sets = append(sets, s)
+			}
+		}
 		x.Check("nodesWithEndpoint:usable-site", ne.Pos(), len(sets) == 1, "", "expected one `usable[node] = true`")
 		for _, s := range sets {
-			key := s.Node.(*ast.AssignStmt).Lhs[0].(*ast.IndexExpr).Index
+			key := keyOf[s.Node]
 			var ep ast.Expr
 			isName := func(e ast.Expr) bool {
 				if !ne.SameExpr(e, key) {
 					return false
 				}
-				id, ok := ast.Unparen(e).(*ast.Ident)
-				if !ok {
-					return false
+				var rhs ast.Expr = ast.Unparen(e)
+				if id, ok := ast.Unparen(e).(*ast.Ident); ok {
+					rhs, _ = g.DefOf(id, g.FactSite(id))
 				}
-				rhs, _ := g.DefOf(id, g.FactSite(id))
 				b := ne.MatchNew("*EP.NodeName", rhs)
 				if b == nil {
 					return false
@@ -515,9 +623,51 @@ func c04Eligible(p *chk.Prog, r *chk.Report) {
 			sameEP := func(e ast.Expr) bool { return ne.SameExpr(e, ep) }
 			x.Check("nodesWithEndpoint:can-serve", s.Pos(), g.Dominated(s, g.GPat(true, "epslices.EndpointCanServe(EP.Conditions)", chk.H("EP", sameEP))), "", "a node counts although its endpoint is neither ready nor serving")
 			x.Check("nodesWithEndpoint:has-node-name", s.Pos(), g.Dominated(s, g.GPat(true, "EP.NodeName != nil", chk.H("EP", sameEP))), "", "NodeName is dereferenced / used without the nil test")
-			x.Check("nodesWithEndpoint:has-speaker", s.Pos(), g.Dominated(s, chk.GAnyOf(
+			okSpeaker := g.Dominated(s, chk.GAnyOf(
 				g.GPat(true, "SP[N]", chk.H("SP", isParam(ne, "speakers")), chk.H("N", isName)),
-				chk.GBool(true, definedBy(g, "SP[N]", chk.H("SP", isParam(ne, "speakers")), chk.H("N", isName))))), "", "a node without a live, eligible speaker can become a candidate under the Local policy")
+				chk.GBool(true, definedBy(g, "SP[N]", chk.H("SP", isParam(ne, "speakers")), chk.H("N", isName)))))
+			if !okSpeaker {
+				// the other way round: the hosting nodes are collected first, the result is drawn from the speakers that
+				// are alive (value true) and hosting
+				hset := func(e ast.Expr) bool {
+					if ne.SameExpr(e, setOf[s.Node]) {
+						return true
+					}
+					// the same set handed over under another name (the collecting helper's result)
+					so, eo := ne.ObjOf(setOf[s.Node]), ne.ObjOf(e)
+					return so != nil && eo != nil && flowSources(ne, eo)[so]
+				}
+				for _, rs := range ne.RangeLoops(isParam(ne, "speakers")) {
+					node := rangeKey(ne, rs)
+					apps := g.Find(func(n ast.Node) bool {
+						return chk.InBody(rs, n) && ne.IsAssignPat("R", "append(R, N)", chk.H("N", node))(n)
+					})
+					if len(apps) != 1 {
+						continue
+					}
+					alive := chk.GBool(true, rangeVal(ne, rs))
+					hosting := chk.GAnyOf(g.GPat(true, "H.Has(N)", chk.H("H", hset), chk.H("N", node)), g.GPat(true, "H[N]", chk.H("H", hset), chk.H("N", node)),
+						chk.GBool(true, definedByIdx(g, ne, "H[N]", 1, chk.H("H", hset), chk.H("N", node))))
+					res := ne.ObjOf(apps[0].Node.(*ast.AssignStmt).Lhs[0])
+					retOK := res != nil
+					for _, rt := range g.Returns() {
+						if rr := retResults(rt); len(rr) != 1 || ne.ObjOf(rr[0]) != res {
+							retOK = false
+						}
+					}
+					// the hosting set is complete when the result is drawn: the draw follows the outermost collecting loop
+					var collect *ast.RangeStmt
+					for l := ne.LoopOf(s.Node); l != nil; l = ne.LoopOf(l) {
+						if lrs, isRs := l.(*ast.RangeStmt); isRs {
+							collect = lrs
+						}
+					}
+					if retOK && collect != nil && g.Dominated(apps[0], alive) && g.Dominated(apps[0], hosting) && g.AfterLoop(apps[0], collect) {
+						okSpeaker = true
+					}
+				}
+			}
+			x.Check("nodesWithEndpoint:has-speaker", s.Pos(), okSpeaker, "", "a node without a live, eligible speaker can become a candidate under the Local policy")
 			// every endpoint is looked at: a node whose serving endpoint comes after one that is skipped is still a candidate
 			if ne.LoopOf(s.Node) != nil {
 				bad := scanLeftEarly(ne, s.Node)
@@ -622,8 +772,43 @@ func c04Winner(p *chk.Prog, r *chk.Report) {
 		ag := ae.Graph()
 		for _, rt := range ag.Returns() {
 			res := retResults(rt)
+			if len(res) == 1 && !ae.IsConstBool(res[0], true) {
+				x.Check("activeEndpointExists:no-only-after-every-slice", rt.Pos(), ae.LoopOf(rt.Node) == nil, "", "the answer can be `no` before every slice and endpoint was looked at (it is taken from the first slice, say): a Service whose servable endpoint sits in a later slice is announced by nobody")
+			}
 			if len(res) == 1 && ae.IsConstBool(res[0], true) {
 				x.Check("activeEndpointExists:true-needs-servable", rt.Pos(), ag.Dominated(rt, ag.GPat(true, "epslices.EndpointCanServe(EP.Conditions)")), "", "activeEndpointExists can be true for an endpoint that cannot serve")
+				// and conversely: an endpoint that can serve is never passed over (whatever else is true of it - under the
+				// Cluster policy an endpoint without a node name still makes the Service announceable); nor is the scan cut
+				// short by anything but the positive answer
+				// the loop whose element the servability test is made on (the return may sit one loop further out when the
+				// inner search hands its answer over)
+				var rs *ast.RangeStmt
+				for _, c := range ag.FindPat("epslices.EndpointCanServe(EP.Conditions)") {
+					if l, isRs := ae.LoopOf(c.Node).(*ast.RangeStmt); isRs && rangeVal(ae, l)(ae.MatchNew("epslices.EndpointCanServe(EP.Conditions)", c.Node.(ast.Expr))["EP"]) {
+						rs = l
+					}
+				}
+				if rs != nil {
+					okAll := true
+					cannot := ag.GPat(false, "epslices.EndpointCanServe(EP.Conditions)", chk.H("EP", rangeVal(ae, rs)))
+					can := ag.GPat(true, "epslices.EndpointCanServe(EP.Conditions)", chk.H("EP", rangeVal(ae, rs)))
+					for _, e := range ag.LoopIteration(rs, cannot) {
+						if !e.Break && !e.OK {
+							okAll = false // goes on to the next endpoint although this one can serve
+						}
+					}
+					for _, e := range ag.LoopIteration(rs, can) {
+						if e.Break && !e.OK {
+							okAll = false // stops looking although this endpoint cannot serve
+						}
+					}
+					for l := ae.LoopOf(rs); l != nil; l = ae.LoopOf(l) {
+						if lrs, isRs := l.(*ast.RangeStmt); isRs && loopHasBreak(ag, lrs) {
+							okAll = false
+						}
+					}
+					x.Check("activeEndpointExists:servable-endpoint-is-enough", rs.Pos(), okAll, "", "an endpoint that can serve can be passed over (an extra condition on the endpoint, or a scan that stops early): with only such endpoints nobody announces the Service although eligible nodes exist")
+				}
 			}
 		}
 	}
